@@ -5,6 +5,7 @@ package main
 // assembly and test images.
 
 import (
+	"bufio"
 	"bytes"
 	"encoding/binary"
 	"encoding/hex"
@@ -12,6 +13,7 @@ import (
 	"hash/fnv"
 	"image"
 	"image/color"
+	"io"
 	"strings"
 
 	webp "github.com/deepteams/webp"
@@ -178,27 +180,91 @@ type apiResult struct {
 }
 
 func runAPIs(data []byte) (r apiResult) {
+	return runAPIsVia(func(b []byte) io.Reader { return bytes.NewReader(b) }, data)
+}
+
+// runAPIsVia hands the bytes to the three io.Reader entry points through the given carrier.
+func runAPIsVia(mk func([]byte) io.Reader, data []byte) (r apiResult) {
 	defer func() {
 		if p := recover(); p != nil {
 			r.Panic = fmt.Sprint(p)
 		}
 	}()
-	if img, err := webp.Decode(bytes.NewReader(data)); err != nil {
+	if img, err := webp.Decode(mk(data)); err != nil {
 		r.Dec = "E"
 	} else {
 		r.Dec = pixelDigest(img)
 	}
-	if c, err := webp.DecodeConfig(bytes.NewReader(data)); err != nil {
+	if c, err := webp.DecodeConfig(mk(data)); err != nil {
 		r.Cfg = "E"
 	} else {
 		r.Cfg = fmt.Sprintf("%s,%d,%d", modelName(c.ColorModel), c.Width, c.Height)
 	}
-	if f, err := webp.GetFeatures(bytes.NewReader(data)); err != nil {
+	if f, err := webp.GetFeatures(mk(data)); err != nil {
 		r.Feat = "E"
 	} else {
 		r.Feat = fmt.Sprintf("%d,%d,%s,%s,%s,%d,%d", f.Width, f.Height, b01(f.HasAlpha), b01(f.HasAnimation), f.Format, f.LoopCount, f.FrameCount)
 	}
 	return r
+}
+
+// Carriers: the ways the same bytes can reach the entry points.  A reader without Len / WriteTo / ReadAt makes
+// readAll fall back to io.ReadAll, whose result has spare capacity behind the data; a []byte caller can pass a
+// slice whose backing array goes on (the rest of the file: full[:n], garbage, zeros).
+type plainReader struct{ io.Reader }
+
+type dribbleReader struct {
+	b []byte
+	k int
+}
+
+func (d *dribbleReader) Read(p []byte) (int, error) {
+	if len(d.b) == 0 {
+		return 0, io.EOF
+	}
+	n := 1 + d.k%7
+	d.k++
+	if n > len(p) {
+		n = len(p)
+	}
+	if n > len(d.b) {
+		n = len(d.b)
+	}
+	copy(p, d.b[:n])
+	d.b = d.b[n:]
+	return n, nil
+}
+
+type readerCarrier struct {
+	Name string
+	Mk   func([]byte) io.Reader
+}
+
+func readerCarriers() []readerCarrier {
+	return []readerCarrier{
+		{"plain-reader", func(b []byte) io.Reader { return plainReader{bytes.NewReader(b)} }},
+		{"dribble-reader", func(b []byte) io.Reader { return &dribbleReader{b: b} }},
+		{"bufio-reader", func(b []byte) io.Reader { return bufio.NewReader(plainReader{bytes.NewReader(b)}) }},
+	}
+}
+
+type sliceCarrier struct {
+	Name string
+	Data []byte
+}
+
+// sliceCarriers: full[:n] with spare capacity holding the real continuation, garbage, zeros.
+func sliceCarriers(full []byte, n int) []sliceCarrier {
+	spare := len(full) - n + 64
+	g := make([]byte, n, n+spare)
+	copy(g, full[:n])
+	tail := g[n : n+spare]
+	for i := range tail {
+		tail[i] = byte(0xa5 ^ (i * 37))
+	}
+	z := make([]byte, n, n+spare)
+	copy(z, full[:n])
+	return []sliceCarrier{{"slice-of-the-file", full[:n]}, {"spare-garbage", g}, {"spare-zeros", z}}
 }
 
 func encodeFile(img image.Image, o *webp.EncoderOptions) ([]byte, error) {
